@@ -12,8 +12,12 @@ pub struct MockVerifier;
 
 #[contractimpl]
 impl MockVerifier {
-    /// valid <=> sig_data == b"ok"
+    /// valid <=> sig_data == b"ok"; b"trap" makes the verifier fail (as real verifiers do on
+    /// malformed or forged signatures) instead of answering false
     pub fn verify(e: &Env, _hash: Bytes, _key_data: Bytes, sig_data: Bytes) -> bool {
+        if sig_data == Bytes::from_array(e, b"trap") {
+            panic!("verifier rejects by failing");
+        }
         sig_data == Bytes::from_array(e, b"ok")
     }
 }
